@@ -819,7 +819,7 @@ def datetime_clauses(T, rng, rep, fails, n):
 
     dtc, tmc = T.DateTime(), T.Time()
     for _ in range(n):
-        off = rng.choice([0, 60, -60, 330, -210, 345, 840, -720, -15, -30, -45, -1, -59, 15, 30, 45, rng.randrange(-1439, 1440)])
+        off = rng.choice([0, 60, -60, 330, -210, 345, 840, -720, -15, -30, -45, -1, -59, 15, 30, 45, rng.randrange(-720, 841)])   # the zones the reader admits: -12:00..+14:00
         name = rng.choice([None, None, "UTC", "EST", "CET"])
         tz = datetime.timezone(datetime.timedelta(minutes=off), name) if name else datetime.timezone(datetime.timedelta(minutes=off))
         usec = rng.choice([0, 499, 500, 501, 999499, 999500, 999999, rng.randrange(10 ** 6)])
